@@ -5,21 +5,43 @@ Bounded-exhaustive family of version scripts (1-3 version nodes, with / without 
 dependencies, plus the anonymous form) over one fixed 6-symbol object, each linked `-shared
 --version-script=<f>` by the real wild (in-process server) and by GNU ld 2.40 (the reference for the
 matching precedence).  Per symbol wild must agree with GNU ld on: exported? / version node / hidden
-bit.  Independently of GNU ld, wild's version tables are checked for internal consistency straight
-from the bytes (own parser below, not elfread's lenient one).  A second small family links clients
-against GNU-ld-built versioned libraries (version requirements).
+bit (the expected assignment of every member is whatever GNU ld produced for that very script in
+this run; no model of its precedence takes part in the verdict).  Independently of GNU ld, wild's
+version tables are checked for internal consistency straight from the bytes (own parser below, not
+elfread's lenient one).  A second small family links clients against GNU-ld-built versioned
+libraries (version requirements).
 
 Family (stated; all members enumerated, VERIF_SEED only permutes the order)
+ A. every pattern at most once
   patterns P0..P5 = foo | bar | f* | * | "foobar" | extern "C++" { "ns::f()"; ns::g* }
-  a script = k nodes V1..Vk, every pattern is absent or sits in exactly one list (node, global|local)
-  (GNU ld rejects a pattern that occurs in two nodes, so nothing is lost), patterns inside a list in
-  index order, dependency form none | chain (Vi depends on Vi-1) | multi (V3 depends on V1 and V2).
+  a script = k nodes V1..Vk, every pattern is absent or sits in exactly one list (node, global|local),
+  patterns inside a list in index order, dependency form none | chain (Vi depends on Vi-1) | multi
+  (V3 depends on V1 and V2).
     k=1 named      : all 3^6 = 729 assignments
     k=1 anonymous  : quick: <= 2 patterns per list (283); thorough: all 729
-    k=2 (<= 2 patterns per list): quick: <= 2 patterns in total x {none, chain}, 3 patterns x none;
-                     thorough: every assignment x none, <= 3 patterns x chain
+    k=2 (<= 2 patterns per list): quick: <= 2 patterns in total x {none, chain}; 3 patterns x none
+                     where both nodes are used and two of the three patterns can match a common
+                     symbol (15 of the 20 triples); thorough: every assignment x none, <= 3 patterns
+                     x chain
     k=3 (<= 2 per list), thorough only: <= 3 patterns in total x {none, chain, multi}; 4 patterns with
                      no empty node x none
+ B. placement of catch-all and repeated patterns (the SAME rule in several lists)
+  rule classes, each in a plain and an extern "C++" form (GNU ld treats both as the same kind of
+  rule but does not call them duplicates of each other):
+    star  = * | extern "C++" { * }      glob = f* | extern "C++" { f* }
+    exact = foo | extern "C++" { foo }
+  a placement of one class = per node a state: absent | one form in global: | one form in local:
+  ("single" states, 5) or any subset of {plain, extern} x {global, local} ("double" states, 16);
+  placements that are empty or one plain occurrence are in A and skipped.  "crossed" = the same form
+  in global: of one node and local: of another; GNU ld 2.40 rejects every crossed script
+  ("duplicate expression"), which is re-measured on the members marked (+crossed).  context = zero or
+  more plain patterns of the OTHER two classes, each in one (node, global|local) list.
+    k=1 named + anonymous: double states (13) x context: quick none; thorough <= 2 patterns
+                     + the quoted "*" (a literal for GNU ld) alone and opposite a real *
+    k=2: quick: single states, uncrossed (16) x context <= 1 pattern, (+crossed) x no context, none;
+         thorough: double states (+crossed, 251) x context <= 1 x none; single uncrossed x <= 1 x chain
+    k=3: quick: single states, uncrossed (70) x no context x none;
+         thorough: single states (+crossed, 118) x context <= 1 x none; uncrossed x no context x chain
   every script is linked by wild a second time with -soname=libt.so.1 (tables' consistency only).
   verneed family: clients referencing a subset of {f, f@V1, g, g@V1, h, k} from libv.so (f@V1,
   f@@V2, g@@V1, h unversioned) and libw.so (k@@W1), both built by GNU ld, x output {pie, shared,
@@ -57,12 +79,11 @@ R_X86_64_PLT32 = 4
 
 
 # ------------------------------------------------------------------------------------ the family
-def script_text(k, assign, dep, anon=False):
-    """assign: tuple over patterns of None | (node, 'g'|'l')."""
+def render(k, lists, dep, anon=False):
+    """lists: per node (texts in global:, texts in local:)."""
     out = []
     for n in range(k):
-        g = [PATTERNS[i] for i, a in enumerate(assign) if a == (n, "g")]
-        l = [PATTERNS[i] for i, a in enumerate(assign) if a == (n, "l")]
+        g, l = lists[n]
         body = ""
         if g:
             body += " global: " + " ".join(p + ";" for p in g)
@@ -78,6 +99,13 @@ def script_text(k, assign, dep, anon=False):
     return "\n".join(out) + "\n"
 
 
+def script_text(k, assign, dep, anon=False):
+    """assign: tuple over patterns of None | (node, 'g'|'l')."""
+    return render(k, [([PATTERNS[i] for i, a in enumerate(assign) if a == (n, "g")],
+                       [PATTERNS[i] for i, a in enumerate(assign) if a == (n, "l")])
+                      for n in range(k)], dep, anon)
+
+
 def assignments(k, cap, total=None, nonempty=False):
     slots = [None] + [(n, w) for n in range(k) for w in "gl"]
     for a in itertools.product(slots, repeat=len(PATTERNS)):
@@ -89,6 +117,94 @@ def assignments(k, cap, total=None, nonempty=False):
         if nonempty and len({s[0] for s in used}) < k:
             continue
         yield a
+
+
+def two_overlap(a):
+    """two of the patterns used by assignment a can match a common symbol"""
+    used = [i for i, x in enumerate(a) if x is not None]
+    return any(PMATCH[i].keys() & PMATCH[j].keys() for i, j in itertools.combinations(used, 2))
+
+
+# ---- part B: catch-all / repeated patterns.  key -> (text, {symbol: label for violation keys})
+DPAT = {
+    "star": ('*', {s: "star" for s in SYMS}),
+    "xstar": ('extern "C++" { * }', {s: "c++star" for s in SYMS}),
+    "glob": ('f*', {"foo": "glob", "foobar": "glob"}),
+    "xglob": ('extern "C++" { f* }', {"foo": "c++glob", "foobar": "c++glob"}),
+    "exact": ('foo', {"foo": "exact"}),
+    "xexact": ('extern "C++" { foo }', {"foo": "c++exact"}),
+    "qstar": ('"*"', {}),
+}
+DORDER = {key: i for i, key in enumerate(DPAT)}
+CLASSES = {"star": ("star", "xstar"), "glob": ("glob", "xglob"), "exact": ("exact", "xexact")}
+
+
+def placements(cls, k, doubles):
+    """-> (placement, crossed); placement = per node a tuple of (form key, 'g'|'l')."""
+    occ = [(f, w) for f in CLASSES[cls] for w in "gl"]
+    if doubles:
+        states = [c for r in range(len(occ) + 1) for c in itertools.combinations(occ, r)]
+    else:
+        states = [()] + [(o,) for o in occ]
+    for pl in itertools.product(states, repeat=k):
+        flat = [o for st in pl for o in st]
+        if not flat or (len(flat) == 1 and flat[0][0] == CLASSES[cls][0]):
+            continue      # already in part A
+        crossed = any(f1 == f2 and w1 != w2
+                      for (n1, st1), (n2, st2) in itertools.combinations(enumerate(pl), 2)
+                      for f1, w1 in st1 for f2, w2 in st2)
+        yield pl, crossed
+
+
+def contexts(cls, k, depth):
+    """-> tuples of (plain pattern key of another class, node, 'g'|'l'), at most one per class."""
+    others = [CLASSES[c][0] for c in CLASSES if c != cls]
+    slots = [(n, w) for n in range(k) for w in "gl"]
+    out = [()]
+    if depth >= 1:
+        out += [((o, n, w),) for o in others for n, w in slots]
+    if depth >= 2:
+        out += [((others[0], n0, w0), (others[1], n1, w1)) for n0, w0 in slots for n1, w1 in slots]
+    return out
+
+
+def dup_lists(k, pl, ctx):
+    lists = []
+    for n in range(k):
+        here = list(pl[n]) + [(key, w) for key, nn, w in ctx if nn == n]
+        lists.append(tuple(tuple(sorted((key for key, w in here if w == sec), key=DORDER.get))
+                           for sec in "gl"))
+    return tuple(lists)
+
+
+def dup_family(thorough):
+    fam = []
+
+    def add(kinds, k, doubles, depth, deps, with_crossed, crossed_depth=None):
+        for cls in CLASSES:
+            for pl, crossed in placements(cls, k, doubles):
+                if crossed and not with_crossed:
+                    continue
+                d = depth if not crossed or crossed_depth is None else crossed_depth
+                for ctx in contexts(cls, k, d):
+                    for kind in kinds:
+                        for dep in deps:
+                            fam.append((kind, k, dup_lists(k, pl, ctx), dep))
+
+    add(("dup", "dup-anon"), 1, True, 2 if thorough else 0, ("none",), False)
+    for kind in ("dup", "dup-anon"):
+        for lists in ((("qstar",), ()), ((), ("qstar",)), (("qstar",), ("star",)),
+                      (("star",), ("qstar",))):
+            fam.append((kind, 1, (lists,), "none"))
+    if thorough:
+        add(("dup",), 2, True, 1, ("none",), True)
+        add(("dup",), 2, False, 1, ("chain",), False)
+        add(("dup",), 3, False, 1, ("none",), True)
+        add(("dup",), 3, False, 0, ("chain",), False)
+    else:
+        add(("dup",), 2, False, 1, ("none",), True, crossed_depth=0)
+        add(("dup",), 3, False, 0, ("none",), False)
+    return fam
 
 
 def family(thorough):
@@ -111,13 +227,21 @@ def family(thorough):
         for a in assignments(2, 2, total=lambda m: m <= 2):
             fam.append(("named", 2, a, "none"))
             fam.append(("named", 2, a, "chain"))
-        for a in assignments(2, 2, total=lambda m: m == 3):
-            fam.append(("named", 2, a, "none"))
-    return fam
+        for a in assignments(2, 2, total=lambda m: m == 3, nonempty=True):
+            if two_overlap(a):
+                fam.append(("named", 2, a, "none"))
+    return fam + dup_family(thorough)
+
+
+def is_dup(m):
+    return m[0].startswith("dup")
 
 
 def member_text(m):
     kind, k, a, dep = m
+    if is_dup(m):
+        return render(k, [tuple([DPAT[key][0] for key in sec] for sec in node) for node in a], dep,
+                      anon=(kind == "dup-anon"))
     return script_text(k, a, dep, anon=(kind == "anon"))
 
 
@@ -347,19 +471,67 @@ def observe(path, names):
 
 # ------------------------------------------------------------------------------------ key naming
 def matchers(m, sym):
-    """[(label, node)] of the (pattern, list) pairs of member m that can match sym."""
+    """[(node, label)] of the (pattern, list) pairs of member m that can match sym."""
     kind, k, a, dep = m
     out = []
-    for i, slot in enumerate(a):
-        if slot is not None and sym in PMATCH[i]:
-            out.append((slot[0], f"{PMATCH[i][sym]}.{slot[1]}"))
+    if is_dup(m):
+        for n, node in enumerate(a):
+            for sec, keys in zip("gl", node):
+                for key in keys:
+                    if sym in DPAT[key][1]:
+                        out.append((n, f"{DPAT[key][1][sym]}.{sec}"))
+    else:
+        for i, slot in enumerate(a):
+            if slot is not None and sym in PMATCH[i]:
+                out.append((slot[0], f"{PMATCH[i][sym]}.{slot[1]}"))
     out.sort()
     return out
 
 
+def followed(ms, kind, state):
+    """positions in ms of the rules a linker can have followed to give the symbol this state"""
+    if state is None:
+        return [i for i, (_n, l) in enumerate(ms) if l.endswith(".l")]
+    ver = state[0]
+    if ver.startswith("V") and ver[1:].isdigit():
+        return [i for i, (n, l) in enumerate(ms) if n == int(ver[1:]) - 1 and l.endswith(".g")]
+    if kind == "dup-anon" and ver == "<base>":
+        return [i for i, (_n, l) in enumerate(ms) if l.endswith(".g")]
+    return []
+
+
+def reduced(ms, kind, ld_state, wild_state):
+    """Part B scripts repeat rules, so the full chain of matching rules would give one root cause
+    dozens of keys.  Keep the rules GNU ld and wild can have followed; of several equal rules that
+    all lie on one side (earlier / later nodes) of the other linker's rules keep the nearest."""
+    fl, fw = followed(ms, kind, ld_state), followed(ms, kind, wild_state)
+    if not fl or not fw:
+        return ms
+
+    def thin(mine, other):
+        lo, hi = min(ms[i][0] for i in other), max(ms[i][0] for i in other)
+        out = []
+        for lab in sorted({ms[i][1] for i in mine}):
+            grp = [i for i in mine if ms[i][1] == lab]
+            if all(ms[i][0] > hi for i in grp):
+                grp = grp[:1]
+            elif all(ms[i][0] < lo for i in grp):
+                grp = grp[-1:]
+            out += grp
+        return out
+
+    keep = sorted(set(thin(fl, fw)) | set(thin(fw, fl)))
+    return [ms[i] for i in keep]
+
+
 def cause_key(m, sym, ld_state, wild_state):
+    """<family>:<the rules that can match the symbol, in node order; '<' = in a later node, '=' =
+    in the same node>:ld=<the rule GNU ld followed>,wild=<the rule wild followed>.  A rule that
+    occurs several times in the chain is named with its 1-based position among its equals (#n)."""
     ms = matchers(m, sym)
     kind, k, a, dep = m
+    if is_dup(m):
+        ms = reduced(ms, kind, ld_state, wild_state)
     if not ms:
         cls = "unmatched"
     else:
@@ -370,7 +542,6 @@ def cause_key(m, sym, ld_state, wild_state):
 
     def pick(state):
         if state is None:
-            # localised: name the local matchers
             return "local"
         ver, hidden = state
         if ver == "<base>":
@@ -378,12 +549,20 @@ def cause_key(m, sym, ld_state, wild_state):
         if ver == "<ndx0>":
             return "ndx0"
         n = int(ver[1:]) - 1 if ver.startswith("V") and ver[1:].isdigit() else -1
-        labs = [l for (nn, l) in ms if nn == n and l.endswith(".g")]
-        return (labs[0] if len(labs) == 1 else f"node{n}") + ("+hidden" if hidden else "")
+        at = [i for i, (nn, l) in enumerate(ms) if nn == n and l.endswith(".g")]
+        if len(at) != 1:
+            name = f"node{n}"
+        else:
+            name = ms[at[0]][1]
+            same = [i for i, (_nn, l) in enumerate(ms) if l == name]
+            if len(same) > 1:
+                name += f"#{same.index(at[0]) + 1}"
+        return name + ("+hidden" if hidden else "")
 
-    fam = "anon" if kind == "anon" else "precedence"
+    anon = kind in ("anon", "dup-anon")
+    fam = "anon" if anon else "precedence"
     if any(l.startswith("c++") for _n, l in ms):
-        fam = "extern-c++" if kind != "anon" else "anon-extern-c++"
+        fam = "extern-c++" if not anon else "anon-extern-c++"
     return f"{fam}:{cls}:ld={pick(ld_state)},wild={pick(wild_state)}"
 
 
@@ -620,7 +799,10 @@ def replay(chk):
     os.makedirs(base, exist_ok=True)
     if rp["family"] == "script":
         kind, k, a, dep = rp["member"]
-        m = (kind, k, tuple(None if x is None else (x[0], x[1]) for x in a), dep)
+        if kind.startswith("dup"):
+            m = (kind, k, tuple(tuple(tuple(sec) for sec in node) for node in a), dep)
+        else:
+            m = (kind, k, tuple(None if x is None else (x[0], x[1]) for x in a), dep)
         with open(os.path.join(base, "t.o"), "wb") as f:
             f.write(the_object())
         r = run_script_member((base, 0, m))
@@ -676,6 +858,8 @@ def main():
     wild_reject_examples = []
     sigs, vsigs = set(), set()
     per_shape = {}
+    part_b = {"members": 0, "compared": 0, "gnu_ld_rejects": 0, "wild_rejects": 0,
+              "with_2_or_more_catch_alls": 0, "distinct_gnu_ld_outcomes": set()}
     model_vs_ld = {}
     with vlib.scratch("c32") as base:
         with open(os.path.join(base, "t.o"), "wb") as f:
@@ -687,6 +871,15 @@ def main():
             nsub += r["nsub"]
             shape = f"{m[0]}/k={m[1]}/{m[3]}"
             per_shape[shape] = per_shape.get(shape, 0) + 1
+            if is_dup(m):
+                part_b["members"] += 1
+                part_b["compared"] += r["ld_rc"] == 0 and r["wild_rc"] == 0
+                part_b["gnu_ld_rejects"] += r["ld_rc"] != 0
+                part_b["wild_rejects"] += r["wild_rc"] != 0
+                part_b["with_2_or_more_catch_alls"] += sum(
+                    key in CLASSES["star"] for node in m[2] for sec in node for key in sec) >= 2
+                if r["sig"] is not None:
+                    part_b["distinct_gnu_ld_outcomes"].add(r["sig"])
             rp = {"family": "script", "member": m, "script": member_text(m),
                   "how": "python3 checks/c32.py --replay <this file>"}
             if r["ld_rc"] != 0:
@@ -770,16 +963,24 @@ def main():
         "wild_reject_examples": wild_reject_examples,
         "scripts_wild_accepts_but_gnu_ld_rejects": counts["wild_accepts_ld_rejects"],
         "structure_rules_flagging_gnu_ld_output_excluded": model_vs_ld,
+        "part_B_catch_all_and_repeated_patterns": dict(
+            part_b, distinct_gnu_ld_outcomes=len(part_b["distinct_gnu_ld_outcomes"])),
         "verneed_members": len(vfam), "verneed_compared": vcompared,
         "subprocesses": nsub,
-        "rule": __doc__.split("Family (stated", 1)[1].strip()[:1500],
+        "rule": __doc__.split("Family (stated", 1)[1].strip()[:4000],
         "samples": [{"script": member_text(fam[i])} for i in
                     sorted({0, len(fam) // 3, len(fam) // 2, len(fam) - 1})] +
+                   [{"script": member_text(m)} for m in
+                    [x for x in fam if is_dup(x) and x[1] == 2][:400:133]] +
                    [{"verneed": list(vfam[len(vfam) // 2])}],
         "exhaustive": True,
         "thinned": "patterns inside one list are always in index order (no permutations); lists "
                    "hold <= 2 patterns in multi-node scripts; dependency forms and 3-node scripts "
-                   "as stated in the rule",
+                   "as stated in the rule; quick tier, part A: the 3-patterns-in-2-nodes scripts "
+                   "are limited to those using both nodes with two patterns that can meet on a "
+                   "symbol; part B: one rule class repeated per script, context <= 1 pattern "
+                   "(k=2) / none (k=1, k=3), both forms in one node only for k=1, scripts GNU ld "
+                   "is known to reject (crossed) only for k=2 without context",
     }
     chk.assumptions = [
         "GNU ld 2.40 is the reference for matching precedence; scripts it rejects are dropped "
